@@ -1005,11 +1005,14 @@ func (c *simCluster) deliver(i int) {
 			}
 		}
 		wire, lit, cut := m.wire, m.lit, false
-		if m.kind == rpcAppendEntries && !m.dup && c.abs == nil && c.rnd.Intn(14) == 0 {
+		if m.kind == rpcAppendEntries && !m.dup && (c.abs == nil || absCutEnabled) && c.rnd.Intn(14) == 0 {
 			// the connection breaks inside the request
 			if w2, es2, ok := cutAppendWire(c.rnd, m.wire); ok {
 				q, _ := decodeAppendWire(m.wire)
 				wire, lit, cut = w2, "(EAppendReqCut "+coqAppendReq(q, es2)+")", true
+				if c.hint.kind == "recv" {
+					c.hint.cut = len(es2) + 1 // the abstract event names the whole request and how much of it was handled
+				}
 			}
 		}
 		pv := c.run(dst, "recv "+m.kind.String()+fmt.Sprintf(" from %d", m.from), lit, func() (response, []string) {
